@@ -8,7 +8,7 @@ import time
 
 VERIF = os.path.dirname(os.path.dirname(os.path.abspath(__file__)))
 REPO = os.environ.get("NDV_REPO", "/repo")
-CACHE = os.path.join(VERIF, ".cache")
+CACHE = os.environ.get("NDV_CACHE", os.path.join(VERIF, ".cache"))
 EXPORTER = os.path.join(VERIF, "exporter", "target", "release", "ndv-export")
 
 CONFIGS = {
